@@ -99,3 +99,26 @@ def handleS08 (toks : List String) : String :=
   | _ => "bad-request"
 
 end Lace.Driver
+
+namespace Lace.Driver
+open Lace.Asm
+
+/-- `W19 stack n src₁ … srcₙ`: the verdicts of the re-checks of one `lace watch` session (state
+reset between them) and of fresh `lace check`s of the same texts — by C19 both are `map assemble`. -/
+def handleW19 (toks : List String) : String :=
+  match toks with
+  | so :: _n :: srcs =>
+    match parseHex so, srcs.mapM parseText with
+    | some so, some srcs =>
+      let verdict : Outcome → String
+        | .ok _ => "ok"
+        | .diag _ _ => "diag"
+        | .panic _ => "panic"
+      let w := ",".intercalate ((runSeq (so != 0) true [] srcs).map verdict)
+      let f := ",".intercalate (srcs.map fun s => verdict (assemble (so != 0) [] s).1)
+      let line := "watch=" ++ w ++ " fresh=" ++ f
+      "M " ++ line ++ " ;; S " ++ line
+    | _, _ => "bad-request"
+  | _ => "bad-request"
+
+end Lace.Driver
